@@ -487,3 +487,18 @@ pub fn seed_collected() -> Seed {
     s.predicted_cursor = None;
     s
 }
+
+/// Every seed state of this file: used at a shallow depth by every property, so that a state
+/// class introduced for one property is visited by all of them.
+pub fn all_seeds() -> Vec<Seed> {
+    let mut v = vec![seed_empty()];
+    v.extend(structural_seeds());
+    v.extend(cursor_seeds(&[0, 3], &[0, 1, 6, 7, 8, 19, 34]));
+    v.extend(gc_spill_seeds());
+    v.push(seed_big_buffer(QA));
+    v.extend(straddle_seeds());
+    v.push(seed_many_files(7));
+    v.extend(all_dead_seeds());
+    v.push(seed_collected());
+    v
+}
